@@ -1,6 +1,6 @@
 --------------------------- MODULE TraceDaemonLin ---------------------------
 (* V for C26: the linearizability acceptor.  trace.ndjson holds recorded concurrent histories of the
-   real daemon, one event per line with uniform fields [ev, c, o, r, ri]:
+   real daemon, one event per line with uniform fields [ev, c, o, r, ri, h]:
      "base"  start of a history on a store whose state is r.list (entries) and r.n (last sequence
              number), read sequentially before the clients start (fresh database: empty list, 0)
      "inv"   client c is about to call o          (logged before the call; ri = line of its "res")
@@ -43,9 +43,9 @@ HW == /\ TLCSet(1, IF TLCGet(1) > l THEN TLCGet(1) ELSE l)
       /\ (TLCGet(1) <= Len(Trace) \/ l > Len(Trace))
 ASSUME TLCSet(1, 0)
 \* diagnostics over the whole trace
-HistOf(i) == Cardinality({j \in 1..i : Trace[j].ev = "base"})
+\* (h = number of the history within the file, written by the recorder)
 AddRes == {j \in 1..Len(Trace) : Trace[j].ev = "res" /\ Trace[j].o.op = "AddCmd"}
-Dups == {<<HistOf(j), Trace[j].r.n>> : j \in {x \in AddRes : \E y \in AddRes : y # x /\ HistOf(x) = HistOf(y) /\ Trace[x].r.n = Trace[y].r.n}}
+Dups == {<<Trace[x].h, Trace[x].r.n>> : x \in {x \in AddRes : \E y \in AddRes : y # x /\ Trace[x].h = Trace[y].h /\ Trace[x].r.n = Trace[y].r.n}}
 Accepted == PrintT(<<"HW", TLCGet(1)>>) /\ PrintT(<<"DUP", Dups>>) /\ TLCGet(1) = Len(Trace) + 1
 StoreOK == SeqsBelowNext(store) /\ SeqsUnique(store)
 =============================================================================
